@@ -65,12 +65,12 @@ func VerifC08_index_formula_and_stability() {
 	// blind encodings of 47 and 48 bytes (minimal big-endian form of a scalar below / above 2^376)
 	blind1 := vBytesC("blind1", 47, 48)
 	vAssume(blind1[0] != 0)
-	idx1 := c08Run(issuer, secret, blind1, vBytes("nonce1", 32, 32), vBytesC("challenge1", 0, 1), "aaaaaaaa")
+	idx1 := c08Run(issuer, secret, blind1, vBytes("nonce1", 32, 32), vBytesC("challenge1", 0, vBound("C08_challenge", 1, 6)), "aaaaaaaa")
 	vAssert(vBytesEq(idx1, want), "id-is-hkdf-of-client-key-blinded-by-index-key")
 
 	blind2 := vBytesC("blind2", 47, 48)
 	vAssume(blind2[0] != 0)
-	idx2 := c08Run(issuer, secret, blind2, vBytes("nonce2", 32, 32), vBytesC("challenge2", 0, 1), "aaaaaaaa")
+	idx2 := c08Run(issuer, secret, blind2, vBytes("nonce2", 32, 32), vBytesC("challenge2", 0, vBound("C08_challenge", 1, 6)), "aaaaaaaa")
 	vAssert(vBytesEq(idx2, idx1), "id-independent-of-blind-nonce-challenge")
 	vReach("stable")
 }
